@@ -11,7 +11,8 @@ const POLS: [(SecurityPolicy, &str); 5] = [(SecurityPolicy::Basic128Rsa15, "Basi
     (SecurityPolicy::Basic256Sha256, "Basic256Sha256"), (SecurityPolicy::Aes128Sha256RsaOaep, "Aes128Sha256RsaOaep"),
     (SecurityPolicy::Aes256Sha256RsaPss, "Aes256Sha256RsaPss")];
 
-/// identities: (certificate, private key); ids 0,1 are 2048 bit, 2,3 1024 bit, 4,5 4096 bit (thorough only)
+/// identities: (certificate, private key); ids 0,1 are 2048 bit, 2,3 1024 bit, 4,5 4096 bit (both tiers:
+/// code that depends on the key size - signature buffer, block arithmetic - must meet all three)
 fn idents(n: usize) -> &'static Vec<(X509, PrivateKey)> {
     static C: OnceLock<Vec<(X509, PrivateKey)>> = OnceLock::new();
     C.get_or_init(|| {
@@ -39,7 +40,8 @@ fn cert_term(i: usize) -> String {
 impl Property for P {
     type Case = Case;
     fn fixed(tier: &str) -> Vec<Case> {
-        let n = if tier == "thorough" { 6 } else { 4 };
+        let _ = tier;
+        let n = 6;
         let _ = NID.set(n);
         let mut v = Vec::new();
         for p in 0..5 {
@@ -60,7 +62,7 @@ impl Property for P {
         v
     }
     fn gen(r: &mut Rng) -> Case {
-        let n = *NID.get_or_init(|| 4);
+        let n = *NID.get_or_init(|| 6);
         let id = r.below(n as u64) as usize;
         let nl = r.below(65) as usize; let nonce = r.bytes(nl);
         let mut c = Case { p_sign: r.below(5) as usize, p_verify: 0, signer: id, signed_cert: r.below(n as u64) as usize, signed_nonce: nonce.clone(),
@@ -80,7 +82,7 @@ impl Property for P {
         c
     }
     fn exec(c: &Case) -> Out {
-        let ids = idents(*NID.get_or_init(|| 4));
+        let ids = idents(*NID.get_or_init(|| 6));
         let res = guarded(|| {
             let cert_bytes = ids[c.signed_cert].0.as_byte_string();
             let mut sd = crypto::create_signature_data(&ids[c.signer].1, POLS[c.p_sign].0, &cert_bytes, &ByteString::from(&c.signed_nonce)).unwrap();
